@@ -1,5 +1,63 @@
-import Secp.Hand.History
-/-! # C02 — placeholder: theorems are being added in this session -/
+import Secp.Proofs.GroupLaw
+import Secp.Proofs.LimbGroup
+/-!
+# C02 — Add, Double, Subtract, Negate implement the group law with no exceptional cases
+
+Model of the code: the *generated* `Curve.addProjectiveComplete_eu_v` / `_euv` (receiver = first operand, argument
+distinct / argument = receiver), `Curve.doubleProjectiveComplete_eu`, `Curve.negate` (regenerated from
+`element.go` on every run) composed by the hand-written glue of `Hand.Element` (nil handling, identity short-cut
+of `Negate`, the copy inside `Subtract`), executed at the limb implementation `Hand.limbOps` whose operations are
+the generated Fiat functions.
+
+Specification: Mathlib's group `(WeierstrassCurve.Affine.Point)` of `y² = x³ + 7` over `ZMod p`.
+`Valid P` = canonical limbs, projective curve equation, not all coordinates zero: quantifying over `Valid`
+triples is quantifying over every group element in every internal representation, including every `(0 : Y : 0)`.
+-/
 namespace C02
-theorem model_is_total : True := trivial
+open Hand.Element
+
+abbrev F := Hand.limbOps
+abbrev Valid (P : Pt L4) : Prop := PtValid limbLawful P
+noncomputable abbrev G (P : Pt L4) := toGp limbLawful curveOK_Fp P
+
+/-- **Add** (argument a different variable): the sum in the group, for all operands — either or both the
+identity, `P = Q` in different representations, `P = -Q` — and the result is again a valid element. -/
+theorem add_correct (P Q : Pt L4) (hP : Valid P) (hQ : Valid Q) :
+    Valid (add F P (some Q)) ∧ G (add F P (some Q)) = G P + G Q :=
+  _root_.add_correct limbLawful curveOK_Fp limb_curveConsts P Q hP hQ
+
+/-- **Add** with the receiver as argument (`e.Add(e)`): `2P` -/
+theorem add_self_correct (P : Pt L4) (hP : Valid P) :
+    Valid (addSelf F P) ∧ G (addSelf F P) = G P + G P :=
+  addSelf_correct limbLawful curveOK_Fp limb_curveConsts P hP
+
+/-- **Double** -/
+theorem double_correct (P : Pt L4) (hP : Valid P) :
+    Valid (double F P) ∧ G (double F P) = G P + G P :=
+  _root_.double_correct limbLawful curveOK_Fp limb_curveConsts P hP
+
+/-- **Negate** (every representation of the identity included) -/
+theorem negate_correct (P : Pt L4) (hP : Valid P) :
+    Valid (negate F P) ∧ G (negate F P) = - G P :=
+  _root_.negate_correct limbLawful curveOK_Fp P hP
+
+/-- **Subtract**, for any argument — the receiver itself included, because the code negates a copy -/
+theorem subtract_correct (P Q : Pt L4) (hP : Valid P) (hQ : Valid Q) :
+    Valid (subtract F P (some Q)) ∧ G (subtract F P (some Q)) = G P - G Q :=
+  _root_.subtract_correct limbLawful curveOK_Fp limb_curveConsts P Q hP hQ
+
+theorem subtract_self (P : Pt L4) (hP : Valid P) : G (subtract F P (some P)) = 0 :=
+  _root_.subtract_self limbLawful curveOK_Fp limb_curveConsts P hP
+
+/-- a nil argument leaves the receiver unchanged -/
+theorem add_nil (P : Pt L4) : add F P none = P := rfl
+theorem subtract_nil (P : Pt L4) : subtract F P none = P := rfl
+
+/-- the argument is not written: the cell analysis of the translator shows its cells are never rebound -/
+theorem argument_untouched : ("Curve.addProjectiveComplete_eu_v", ["v"]) ∈ Facts.untouched := by decide
+
+-- non-vacuity: the base point, and (0 : 1 : 0), are `Valid`; so is everything the operations above produce from them
+example : Valid Hand.ElementL.base := base_valid
+example : Valid (identity F) := identity_valid limbLawful
+
 end C02
